@@ -715,4 +715,59 @@ theorem order_single_desc (l r : Doc) (p : String) :
     order l r [⟨p, true⟩] = (V.cmp (sortKey (Get l p) true) (sortKey (Get r p) true)).swap := by
   simp only [order]; cases V.cmp (sortKey (Get l p) true) (sortKey (Get r p) true) <;> rfl
 
+/-! ## §9 uniqueness: permutation + sorted + ties in input order determine the result -/
+
+/-- two permutations of each other that are both sorted and keep every tie class in the same order
+    are equal (no transitivity needed: heads of sorted permutations tie) -/
+theorem sorted_stable_unique (cols : List Column) : ∀ (l1 l2 : List Doc), l1.Perm l2 →
+    l1.Pairwise (fun a b => order a b cols ≠ .gt) → l2.Pairwise (fun a b => order a b cols ≠ .gt) →
+    (∀ a ∈ l1, l1.filter (fun b => order a b cols == .eq) = l2.filter (fun b => order a b cols == .eq)) →
+    l1 = l2 := by
+  intro l1
+  induction l1 with
+  | nil => intro l2 hp _ _ _; exact (List.Perm.nil_eq hp)
+  | cons x t1 ih =>
+    intro l2 hp s1 s2 hf
+    match l2 with
+    | [] => exact absurd hp.length_eq (by simp)
+    | y :: t2 =>
+      have hxy : order x y cols ≠ .gt := by
+        have hy : y ∈ x :: t1 := hp.symm.subset (by simp)
+        rcases List.mem_cons.mp hy with rfl | hy
+        · rw [order_refl]; decide
+        · exact (List.pairwise_cons.mp s1).1 y hy
+      have hyx : order y x cols ≠ .gt := by
+        have hx : x ∈ y :: t2 := hp.subset (by simp)
+        rcases List.mem_cons.mp hx with rfl | hx
+        · rw [order_refl]; decide
+        · exact (List.pairwise_cons.mp s2).1 x hx
+      have hxy_eq : order x y cols = .eq := by
+        rw [order_swap cols x y] at hyx
+        cases h : order x y cols <;> simp_all
+      have hhead := hf x (by simp)
+      simp only [List.filter_cons, order_refl, beq_self_eq_true, ↓reduceIte, hxy_eq] at hhead
+      have exy : x = y := (List.cons.inj hhead).1
+      subst exy
+      have ht : t1 = t2 := by
+        refine ih t2 ((List.perm_cons x).mp hp) (List.pairwise_cons.mp s1).2 (List.pairwise_cons.mp s2).2 ?_
+        intro a ha
+        have := hf a (by simp [ha])
+        simp only [List.filter_cons] at this
+        split at this
+        · exact (List.cons.inj this).2
+        · exact this
+      rw [ht]
+
+/-- `sortDocs` is THE stable sort: any list that is a permutation of the input, non-decreasing and
+    keeps ties in input order equals it. -/
+theorem sortDocs_unique (list : List Doc) (cols : List Column) (ok : ∀ d ∈ list, d.ok) (l' : List Doc)
+    (hp : l'.Perm list) (hs : l'.Pairwise (fun a b => order a b cols ≠ .gt))
+    (ht : ∀ a ∈ list, l'.filter (fun b => order a b cols == .eq) = list.filter (fun b => order a b cols == .eq)) :
+    l' = sortDocs list cols := by
+  refine sorted_stable_unique cols l' (sortDocs list cols) (hp.trans (sortDocs_perm list cols).symm) hs
+    (sortDocs_pairwise list cols ok) ?_
+  intro a ha
+  have ha' : a ∈ list := hp.subset ha
+  rw [ht a ha', sortDocs_ties list cols ok a (ok a ha')]
+
 end Lungo
